@@ -76,15 +76,18 @@ IsConstEnc(e) == CASE e.kind = "type" -> e.presence = "constant"
 \* layout of a member list: constants take no space; a member sits at its
 \* custom offset if it has one, else right after the previous non-constant
 \* member.  Returns <<offsets (-1 for constants), end>>.
-RECURSIVE LayoutFrom(_, _, _, _, _)
-LayoutFrom(sizes, consts, customs, k, cur) ==
-  IF k > Len(sizes) THEN <<<<>>, cur>>
-  ELSE IF consts[k]
-       THEN LET r == LayoutFrom(sizes, consts, customs, k + 1, cur)
-            IN <<(<<-1>>) \o r[1], r[2]>>
-       ELSE LET off == IF customs[k] >= 0 THEN customs[k] ELSE cur
-                r == LayoutFrom(sizes, consts, customs, k + 1, off + sizes[k])
-            IN <<(<<off>>) \o r[1], r[2]>>
+\* (accumulator style, every argument bound to a value exactly once: TLC
+\* re-evaluates operator arguments and LET definitions at every use)
+RECURSIVE LayoutAcc(_, _, _, _, _, _)
+LayoutAcc(sizes, consts, customs, k, cur, acc) ==
+  IF k > Len(sizes) THEN <<acc, cur>>
+  ELSE IF consts[k] THEN LayoutAcc(sizes, consts, customs, k + 1, cur, Append(acc, -1))
+  ELSE IF customs[k] >= 0
+       THEN LayoutAcc(sizes, consts, customs, k + 1, customs[k] + sizes[k], Append(acc, customs[k]))
+       ELSE LayoutAcc(sizes, consts, customs, k + 1, cur + sizes[k], Append(acc, cur))
+LayoutFrom(sizes, consts, customs, k0, cur0) ==
+  CHOOSE r \in {LayoutAcc(s, c, o, k0, cur0, <<>>) :
+                  s \in {sizes \o <<>>}, c \in {consts \o <<>>}, o \in {customs \o <<>>}} : TRUE
 
 RECURSIVE EncSize(_)
 CompLayout(c) ==
